@@ -10,6 +10,7 @@ import (
 // Round-3 rules of C17 (written after seeds C17/7 and C17/8 were missed; C17/9 is reported by C17.keys).
 func c17Round3(c *Ctx) {
 	c17IdentityKeys(c)
+	c17IndexHit(c)
 	c17RuntimeThresholds(c)
 	// (a) the node's stake claim is recomputed on every registration that is accepted: the thresholds depend on the
 	// node's roles AND on its set of runtimes, both of which an allowed update can change, so a renewal that only
@@ -187,4 +188,20 @@ func c17RuntimeThresholds(c *Ctx) {
 	}
 	visit(rr, 0)
 	c.Check(compares || refreshes, "C17.claims", fname(rr)+":a change of the runtime's stake thresholds reaches the claims of its nodes", c.P.Pos(vr.Pos()), "the update verification restricts Staking.Thresholds or the registration recomputes node claims", "a runtime update may change Staking.Thresholds (VerifyRuntimeUpdate never looks at them) and registerRuntime does not recompute the claims of the nodes registered for the runtime: the recorded node claims keep the old thresholds and differ from the ones implied by the registrations (the extra stake stays unlocked) until each node re-registers")
+}
+
+// c17IndexHit (seed C17/11): "an entity cannot be removed while it owns runtimes" rests on HasEntityRuntimes answering true
+// whenever the runtime-by-entity index has an entry for the entity (the index covers active and suspended runtimes). The
+// answer false is given only where the index has no entry for it: iterator exhausted, key of another format, or another
+// entity's key. (A "confirmation" of the hit against some other source — e.g. the active runtime descriptors — lets an
+// entity whose runtimes are all suspended deregister.)
+func c17IndexHit(c *Ctx) {
+	fn := c.needFn("C17.remove", pkRegState+".(*ImmutableState).HasEntityRuntimes")
+	if fn == nil {
+		return
+	}
+	c.ResultImpliesCond("C17.remove", fn, 0, false, fname(fn)+":false only when the index has no entry for the entity", "no index hit",
+		`^(!.*\.Valid\(\)|!common/keyformat\.\(\*KeyFormat\)\.Decode\(.*runtimeByEntityKeyFmt.*\)|!common/keyformat\.\(\*PreHashed\)\.Equal\(.*\))$`,
+		"HasEntityRuntimes answers false only on a path where the runtime-by-entity index has no entry for the entity",
+		"HasEntityRuntimes can answer false although the runtime-by-entity index has an entry for the entity (the hit is overridden by another source): an entity whose runtimes are, say, all suspended can be deregistered while the runtimes still name it and its stake claim stays behind")
 }
